@@ -14,7 +14,7 @@ CONSTANTS
   Outcomes = {"cacheable", "uncacheable", "error"}
   LoadResults = {}
   SaveResults = {TRUE}
-  Jumps = {1}
+  Jumps = {1, 40}
   MaxTicks = 4
   MaxStarts = 6
   MaxVer = 6
@@ -27,6 +27,10 @@ CONSTANTS
   AgeAtDecision = TRUE
   LoadAtomic = TRUE
   PurgeFences = TRUE
+  SaveUnderLock = TRUE
+  PurgeHoldsShard = TRUE
+  AbsentPurge = FALSE
+  Reapplies = FALSE
   Ghost = TRUE
   GenDepth = 60
 INVARIANT Emit
